@@ -5,11 +5,14 @@
    pixel; a partial read is the restriction) and CatRefine.v (the routine's own data flow in in-memory
    mode — one output map, for every output coverage pixel and every input a 'replace' update of the
    input's valid pixels inside it — gives, for any inputs, the value of the last input valid at each
-   pixel and the sentinel elsewhere, and a well-formed map).  The interpreter's op 32 computes both;
+   pixel and the sentinel elsewhere, and a well-formed map), CatCov.v (the visiting list the routine computes
+   from the inputs' coverage contains every needed coverage pixel, for any mix of coverage resolutions) and
+   CatChkProofs.v (check_overlap raises iff two inputs share a valid pixel; or_overlap never raises and
+   or-s the inputs in list order).  The interpreter's ops 32 and 36 compute both levels;
    the implementation's output file is compared with it on every run, for inputs of differing
    coverage resolution and every requested output coverage resolution. *)
 From Coq Require Import QArith.
-From HS Require Import Prelude Cov Map Spec Ops Spec2 Params MapProofs MultiProofs CatRefine Exec Exec2.
+From HS Require Import Prelude Cov Map Spec Ops Spec2 Params MapProofs MultiProofs CatRefine CatCov CatChk CatChkProofs Exec Exec2.
 Open Scope Z_scope.
 
 Section C18.
@@ -78,8 +81,79 @@ Theorem C18_concatenation_of_disjoint_inputs :
     (cvals P inputs q = [] -> read (p_V P) (p_dv P) out q = sentinel).
 Proof. exact cat_mem_disjoint. Qed.
 
+(* the visiting list the routine computes itself (covered pixels of same-resolution inputs, coverage pixels of
+   the valid pixels of coarser-covered inputs, parents of the covered pixels of finer-covered inputs) has no
+   repetition and contains the coverage pixel of every pixel at which some input is valid *)
+Theorem C18_visiting_list_is_complete :
+  forall (P : params) (N ncv nf : Z) (inputs : list (smap (p_V P))),
+    0 <= ncv -> 0 < nf -> N = ncv * nf ->
+    (forall m, In m inputs -> okin P N m /\ nested P nf m) ->
+    NoDup (cat_cov_pix (p_V P) (p_valid P) (p_dv P) ncv nf inputs) /\
+    forall q, 0 <= q < N -> cvals P inputs q <> [] ->
+      In (q / nf) (cat_cov_pix (p_V P) (p_valid P) (p_dv P) ncv nf inputs).
+Proof. exact cat_cov_pix_complete. Qed.
+
+(* hence the routine as a whole, for any combination of input coverage resolutions and output coverage resolution *)
+Theorem C18_concatenation_routine_with_its_own_visiting_list :
+  forall (P : params) (N ncv nf : Z) (sentinel : p_V P) (inputs : list (smap (p_V P))),
+    0 <= ncv -> 0 < nf -> N = ncv * nf -> p_valid P sentinel = false ->
+    (forall m, In m inputs -> okin P N m /\ nested P nf m) ->
+    let out := cat_mem (p_V P) (p_valid P) (p_dv P) (p_vadd P) (p_vor P) (p_vand P) (p_vzero P) (p_is_sent P)
+                       (p_sent_nonzero P) ncv nf sentinel inputs
+                       (cat_cov_pix (p_V P) (p_valid P) (p_dv P) ncv nf inputs) in
+    MapProofs.wf P out /\ npix (p_V P) out = N /\ blank out = sentinel /\
+    forall q, 0 <= q < N ->
+      read (p_V P) (p_dv P) out q =
+      match cvals P inputs q with [] => sentinel | _ => fold_left (fun _ b => b) (cvals P inputs q) sentinel end.
+Proof. exact cat_routine_spec. Qed.
+
+(* with check_overlap (chk) and or_overlap on integer maps (orm): the routine raises (None) only when checking
+   without or, and then two inputs share a valid pixel; otherwise the result is well formed and holds at every
+   pixel the inputs valid there folded in list order (or-ed onto an already valid value when checking, taken
+   otherwise), and when checking without or no pixel is valid in two inputs *)
+Theorem C18_checked_concatenation :
+  forall (P : params) (N : Z) (chk orm : bool) (ncv nf : Z) (sentinel : p_V P) (inputs : list (smap (p_V P))),
+    0 <= ncv -> 0 < nf -> N = ncv * nf -> p_valid P sentinel = false ->
+    (forall m, In m inputs -> okin P N m /\ nested P nf m) ->
+    match cat_chk (p_V P) (p_valid P) (p_dv P) (p_vadd P) (p_vor P) (p_vand P) (p_vzero P) (p_is_sent P)
+                  (p_sent_nonzero P) chk orm ncv nf sentinel inputs
+                  (cat_cov_pix (p_V P) (p_valid P) (p_dv P) ncv nf inputs) with
+    | Some out =>
+        MapProofs.wf P out /\ npix (p_V P) out = N /\ blank out = sentinel /\
+        (forall q, 0 <= q < N -> read (p_V P) (p_dv P) out q = fold_left (ostep P chk) (cvals P inputs q) sentinel) /\
+        (chk = true -> orm = false -> forall q, 0 <= q < N -> zlen (cvals P inputs q) <= 1)
+    | None => chk = true /\ orm = false /\ exists q, 0 <= q < N /\ 2 <= zlen (cvals P inputs q)
+    end.
+Proof. exact cat_checked_routine_spec. Qed.
+
+(* an error is raised iff two inputs share a valid pixel ... *)
+Theorem C18_check_overlap_raises_iff_inputs_share_a_valid_pixel :
+  forall (P : params) (N ncv nf : Z) (sentinel : p_V P) (inputs : list (smap (p_V P))),
+    0 <= ncv -> 0 < nf -> N = ncv * nf -> p_valid P sentinel = false ->
+    (forall m, In m inputs -> okin P N m /\ nested P nf m) ->
+    cat_chk (p_V P) (p_valid P) (p_dv P) (p_vadd P) (p_vor P) (p_vand P) (p_vzero P) (p_is_sent P)
+            (p_sent_nonzero P) true false ncv nf sentinel inputs
+            (cat_cov_pix (p_V P) (p_valid P) (p_dv P) ncv nf inputs) = None <->
+    exists q, 0 <= q < N /\ 2 <= zlen (cvals P inputs q).
+Proof. exact cat_raises_iff_overlap. Qed.
+
+(* ... except that integer maps can instead be or-ed on request *)
+Theorem C18_or_overlap_never_raises :
+  forall (P : params) (N ncv nf : Z) (sentinel : p_V P) (inputs : list (smap (p_V P))),
+    0 <= ncv -> 0 < nf -> N = ncv * nf -> p_valid P sentinel = false ->
+    (forall m, In m inputs -> okin P N m /\ nested P nf m) ->
+    cat_chk (p_V P) (p_valid P) (p_dv P) (p_vadd P) (p_vor P) (p_vand P) (p_vzero P) (p_is_sent P)
+            (p_sent_nonzero P) true true ncv nf sentinel inputs
+            (cat_cov_pix (p_V P) (p_valid P) (p_dv P) ncv nf inputs) <> None.
+Proof. exact cat_or_never_raises. Qed.
+
 Print Assumptions C18_union_takes_the_only_valid_input.
 Print Assumptions C18_union_invalid_elsewhere.
 Print Assumptions C18_concatenation_routine_is_well_formed_and_pointwise.
 Print Assumptions C18_concatenation_of_disjoint_inputs.
 Print Assumptions C18_overlap_iff_shared_valid_pixel.
+Print Assumptions C18_visiting_list_is_complete.
+Print Assumptions C18_concatenation_routine_with_its_own_visiting_list.
+Print Assumptions C18_checked_concatenation.
+Print Assumptions C18_check_overlap_raises_iff_inputs_share_a_valid_pixel.
+Print Assumptions C18_or_overlap_never_raises.
